@@ -29,6 +29,7 @@ impl Check for C05 {
                 let aad = bytes_of_len(ctx, la);
                 let pt = bytes_of_len(ctx, lp);
                 c05_case(ctx, &p, &aad, &pt);
+                built_then_edited_case(ctx, "Enc_structure", &p, &aad, &pt);
                 ctx.sample(|| J::obj(vec![("protected", J::Str(format!("{:?}", p.bytes.as_ref().map(|b| crate::rcbor::hex(b))))), ("aad_len", J::UInt(la as u64)), ("outcome", J::s("all helper outputs equal the RFC 8152 Enc_structure for the carrier's / caller's context; refusals observed"))]));
             }
             1 => {
